@@ -351,7 +351,7 @@ def run_loaders(c, out):
                 f.write("".join("%.2f\n" % v for v in vals))
             ok, r = call(out, "tlt_load", lambda: ioutils.tlt_load("a.tlt"))
             if ok:
-                out.check(close32(r, np.sort(f32(vals))), "tlt_load:not_file_values_ascending", lambda: f"{np.asarray(r)[:5]} vs {np.sort(vals)[:5]}")
+                out.check(close32(r, np.sort(f32(vals))), "tlt_load:not_file_values_ascending", lambda: f"{np.ravel(r)[:5]} vs {np.sort(vals)[:5]}")
             ok, r = call(out, "tlt_load", lambda: ioutils.tlt_load("a.tlt", sort_angles=False))
             if ok:
                 out.check(close32(r, f32(vals)), "tlt_load:unsorted_request_not_file_order", "")
@@ -370,7 +370,7 @@ def run_loaders(c, out):
             inp = d.copy() if c["as"] == "array" else d.tolist()
             ok, r = call(out, "total_dose_load", lambda: ioutils.total_dose_load(inp))
         if ok:
-            out.check(close32(r, d), "dose_load:not_file_values_in_order", lambda: f"{np.asarray(r)[:5]} vs {d[:5]}")
+            out.check(close32(r, d), "dose_load:not_file_values_in_order", lambda: f"{np.ravel(r)[:5]} vs {d[:5]}")
     elif which == "mdoc_dose":
         tilts = rng.permutation(np.arange(n) * 3.0 - 30.0)
         expo = np.round(rng.uniform(1, 4, n), 2)
@@ -388,7 +388,7 @@ def run_loaders(c, out):
                 kind = "exposure_only" if close32(r, expo[order]) else ("order" if close32(np.sort(r), np.sort(want)) else "values")
             else:
                 kind = "shape"
-            out.check(good, f"mdoc_dose:not_prior_plus_exposure:{kind}", lambda: f"{np.asarray(r)[:5]} vs {want[:5]}")
+            out.check(good, f"mdoc_dose:not_prior_plus_exposure:{kind}", lambda: f"{np.ravel(r)[:5]} vs {want[:5]}")
         ok, r = call(out, "tlt_load(mdoc)", lambda: ioutils.tlt_load("d.mdoc"))
         if ok:
             out.check(close32(r, np.sort(tilts)), "tlt_load:mdoc_tilts_not_ascending", "")
